@@ -4,6 +4,13 @@ from harness.drivers import contract, fuse, walks
 
 
 def run(ck):
+    # Machine.tla: TLC checks Impl |= Props on the bounded instance and exports programs (spec -> code)
+    from vlib import machine
+    from harness import gen as _gen
+    _tids = _gen.Tids(100000)
+    mprogs = []
+    mprogs += machine.run_machine(ck, "Z2", "abelian", "PoolZ2s", "OpsAll", rank=2, depth=2, mod=20, tids=_tids)
+    ck.conform(mprogs)
     q = ck.tier == "quick"
     tids = gen.Tids()
     progs = walks.walk_programs(ck.seed, 200 if q else 4000, depth=8, tids=tids, salt="walk20")
